@@ -31,6 +31,7 @@ type mgrNode struct {
 	Stopped  bool   `json:"stopped,omitempty"`  // replication threads stopped
 	Health   string `json:"health,omitempty"`   // "" = what a health checker would write | missing | pingfail | fsro | crash
 	Prio     int64  `json:"prio,omitempty"`
+	Cut      bool   `json:"cut,omitempty"` // the manager cannot reach this (running) server; its own mysync can
 }
 type mgrMaint struct {
 	Paused      bool `json:"paused"`
@@ -105,6 +106,8 @@ type mgrStep struct {
 	WorldAfter  map[string]vk.Node
 	Health    map[string]*nodestate.NodeState
 	LockHeld  bool
+	Restarted bool // a fresh manager process runs this iteration
+	CutNow    map[string]bool // hosts the manager cannot reach in this iteration
 }
 type mgrOut struct {
 	Steps []mgrStep
@@ -125,7 +128,25 @@ func (s *mgrSwitch) toSwitchover(now time.Time) Switchover {
 }
 
 func mgrHealth(app *App, w *vk.World, h string, kind string) *nodestate.NodeState {
+	// the record is what the host's own mysync would see: lift the manager's partition while looking
+	w.Mu.Lock()
+	cut := w.Partition[app.config.Hostname]
+	w.Partition[app.config.Hostname] = nil
+	w.Mu.Unlock()
 	ns := app.getNodeState(h)
+	w.Mu.Lock()
+	w.Partition[app.config.Hostname] = cut
+	w.Mu.Unlock()
+	if cut != nil && cut[h] {
+		w.Mu.Lock()
+		if n := w.Nodes[h]; n != nil {
+			w.DropConnsLocked(n) // the connection opened while looking does not survive
+		}
+		w.Mu.Unlock()
+	}
+	if os.Getenv("VERIF_DEBUG") != "" {
+		fmt.Printf("mgrHealth %s kind=%q ping=%v cut=%v\n", h, kind, ns.PingOk, cut)
+	}
 	switch kind {
 	case "pingfail":
 		ns = &nodestate.NodeState{CheckBy: h, CheckAt: time.Now(), PingOk: false}
@@ -192,6 +213,12 @@ func mgrRun(in mgrIn) mgrOut {
 			n.Lag = &lag
 		}
 		w.AddNode(n)
+		if c.Cut {
+			if w.Partition[mgr] == nil {
+				w.Partition[mgr] = map[string]bool{}
+			}
+			w.Partition[mgr][h] = true
+		}
 		if c.Cascade {
 			d.rawSet(dcs.JoinPath(pathCascadeNodesPrefix, h), mysql.CascadeNodeConfiguration{StreamFrom: "h1"})
 		} else {
@@ -200,7 +227,7 @@ func mgrRun(in mgrIn) mgrOut {
 		out.Hosts = append(out.Hosts, h)
 	}
 	w.AutoReplicate = true
-	va := newVApp(w, d, vAppOpts{Hostname: mgr, Dir: dir, Tune: func(cfg *config.Config) {
+	tune := func(cfg *config.Config) {
 		cfg.Failover = in.Cfg.Failover
 		cfg.FailoverDelay = time.Duration(in.Cfg.Delay) * time.Second
 		cfg.FailoverCooldown = time.Duration(in.Cfg.Cooldown) * time.Second
@@ -212,8 +239,9 @@ func mgrRun(in mgrIn) mgrOut {
 		cfg.SlaveCatchUpTimeout = 10 * time.Second
 		cfg.WaitReplicationStartTimeout = 3 * time.Second
 		cfg.ReplMon = false
-	}})
-	defer va.close()
+	}
+	va := newVApp(w, d, vAppOpts{Hostname: mgr, Dir: dir, Tune: tune})
+	defer func() { va.close() }()
 	app := va.app
 	out.Cfg = va.cfg
 	time.Sleep(7 * time.Second) // never run at the epoch itself: a clock value of 0 means "unset" in the model
@@ -292,6 +320,20 @@ func mgrRun(in mgrIn) mgrOut {
 					n.Up = true
 				}
 				w.Mu.Unlock()
+			case "cut":
+				w.Mu.Lock()
+				if w.Partition[mgr] == nil {
+					w.Partition[mgr] = map[string]bool{}
+				}
+				w.Partition[mgr][h] = true
+				if n := w.Nodes[h]; n != nil {
+					w.DropConnsLocked(n)
+				}
+				w.Mu.Unlock()
+			case "uncut":
+				w.Mu.Lock()
+				delete(w.Partition[mgr], h)
+				w.Mu.Unlock()
 			case "health":
 				setHealth(h, ev.Health)
 			case "abort":
@@ -314,13 +356,29 @@ func mgrRun(in mgrIn) mgrOut {
 				d.rawDelete(dcs.JoinPath(pathHANodes, h))
 			case "maintfile":
 				writeFile(va.cfg.Maintenancefile, "")
+			case "restart": // the manager process is replaced by a fresh one (empty process memory)
+				va.close()
+				d.silent = true
+				va = newVApp(w, d, vAppOpts{Hostname: mgr, Dir: dir, Tune: tune})
+				app = va.app
 			}
 		}
 		var st mgrStep
+		for _, ev := range in.Events {
+			if ev.At == k && ev.Kind == "restart" {
+				st.Restarted = true
+			}
+		}
 		st.MemBefore = "{| mm_ha := " + hostsGal(app.cluster.HANodeHosts()) + "; mm_casc := " + hostsGal(app.cluster.CascadeNodeHosts()) +
 			"; mm_an := " + anMemGal(app, vEpoch) + "; mm_repair := " + repairMemGal(app) + " |}"
 		st.FailedBefore = mgrFailed(app)
 		st.Files = fileState()
+		st.CutNow = map[string]bool{}
+		w.Mu.Lock()
+		for h, v := range w.Partition[mgr] {
+			st.CutNow[h] = v
+		}
+		w.Mu.Unlock()
 		st.Tree = mgrTree(d)
 		st.WorldBefore = snap()
 		st.Health = map[string]*nodestate.NodeState{}
@@ -572,6 +630,19 @@ func mgrFaultVariants(o *vk.Out, in mgrIn, out mgrOut, all bool) []mgrIn {
 		if len(visited) == 0 {
 			continue
 		}
+		// the observation order of parallel sections varies from run to run: pick from a canonical order
+		sort.SliceStable(visited, func(a, b int) bool {
+			if visited[a].Host != visited[b].Host {
+				return visited[a].Host < visited[b].Host
+			}
+			if visited[a].Kind != visited[b].Kind {
+				return visited[a].Kind < visited[b].Kind
+			}
+			if visited[a].Arg != visited[b].Arg {
+				return visited[a].Arg < visited[b].Arg
+			}
+			return visited[a].Idx < visited[b].Idx
+		})
 		picks := []int{o.Rng.Intn(len(visited))}
 		if all {
 			picks = nil
@@ -586,16 +657,16 @@ func mgrFaultVariants(o *vk.Out, in mgrIn, out mgrOut, all bool) []mgrIn {
 			fin.Fault, fin.DcsFault = nil, nil
 			if e.Host != "" {
 				nth := 0
-				for _, p := range visited[:i] {
-					if p.Host == e.Host && p.Kind == e.Kind {
+				for _, p := range visited {
+					if p.Host == e.Host && p.Kind == e.Kind && p.Idx < e.Idx {
 						nth++
 					}
 				}
 				fin.Fault = &vk.Fault{Host: e.Host, Kind: e.Kind, Nth: nth, Action: []string{"err:1105", "drop", "applydrop"}[o.Rng.Intn(3)]}
 			} else if op := map[string]string{"DcsGet": "get", "DcsSet": "set", "DcsCreate": "create", "DcsChildren": "children", "DcsDelete": "delete"}[e.Kind]; op != "" {
 				nth := 0
-				for _, p := range visited[:i] {
-					if p.Host == "" && p.Kind == e.Kind && p.Arg == e.Arg {
+				for _, p := range visited {
+					if p.Host == "" && p.Kind == e.Kind && p.Arg == e.Arg && p.Idx < e.Idx {
 						nth++
 					}
 				}
